@@ -11,6 +11,7 @@
     executing the real generated C against the extracted Core.Sem interpreter (the search of harness/props/C02.py). *)
 From Coq Require Import ZArith List Bool.
 From Backend Require Import Model Gen_CIR ModelComp ProofsSimplify ProofsDiv ProofsOffset ProofsWindow ProofsAccess.
+From Backend Require Import ModelNames ProofsNames.
 From Core Require Sem.
 Import ListNotations.
 Local Open Scope Z_scope.
@@ -127,3 +128,23 @@ Theorem C02_access_window : forall x n known idx rho sg dims off a,
   exists e, access_offset (TyWindow x n known) idx = Some e /\ a = off + xeval rho sg e.
 Proof. exact access_window_correct. Qed.
 Print Assumptions C02_access_window.
+
+(** name disambiguation ([Compiler.new_varname] with the scoped [names] / [env] maps, model ModelNames.v, compared with
+    the real methods on every run): after ANY sequence of declarations and scope pushes / pops that the implementation
+    completes, the C identifiers of the declarations in scope are pairwise distinct, *)
+Theorem C02_names_injective : forall ops st,
+  run_state ops init = Some st -> NoDup (map snd (live st)).
+Proof. exact names_injective. Qed.
+Print Assumptions C02_names_injective.
+
+(** a new declaration never receives an identifier that is in scope (an inner variable cannot capture an outer one), *)
+Theorem C02_names_no_capture : forall ops st x nm c st',
+  run_state ops init = Some st -> new_varname st x nm = Some (c, st') -> ~ In c (map snd (live st)).
+Proof. exact names_no_capture. Qed.
+Print Assumptions C02_names_no_capture.
+
+(** and therefore the identifier emitted for a Sym resolves, by C's innermost-declaration rule, to that Sym *)
+Theorem C02_names_resolve : forall ops st x c,
+  run_state ops init = Some st -> env_lookup x (live st) = Some c -> c_resolve c (live st) = Some x.
+Proof. exact names_resolve. Qed.
+Print Assumptions C02_names_resolve.
